@@ -9,7 +9,7 @@ T: API histories (insert call/return of every thread, then contains/find/size/it
    partition) of real Trie<1..4> executions - replayed walks, seeded random schedules, systematic preemption-bounded schedules and
    real-thread stress, over small, sparse and (separately) negative 32-bit keys - are validated by TLC against the property-level
    spec/TupleSetAbs.tla.  A history TLC rejects is the VIOLATION."""
-import os, subprocess, random, re, json
+import os, subprocess, random, re, json, time
 from .. import build, tlc, graphwalk, tracecheck, known
 from ..common import workdir, seed, Result, SPEC, HARNESS, BUILD, NCPU
 from ..evidence import finish
@@ -376,6 +376,8 @@ def run(tier, replay_path=None):
         p = subprocess.run([drv], input=open(replay_path).read(), capture_output=True, text=True)
         print(p.stdout); return 0
     q = tier == "quick"
+    phases = res.cov.setdefault("phase_seconds", {})
+    t0 = time.time()
     # S
     cfgs = ["MC_BrieQ22.cfg", "MC_BrieQ31.cfg", "MC_BrieL.cfg"] + ([] if q else ["MC_BrieT32.cfg", "MC_BrieT22.cfg"])
     for cfg in cfgs:
@@ -384,17 +386,21 @@ def run(tier, replay_path=None):
         if viol:
             path = os.path.join(wd, "tlc_%s.out" % cfg); open(path, "w").write(r["out"])
             res.violations.append((viol, path))
+    phases["S model checking"] = round(time.time() - t0, 1); t0 = time.time()
     # R (+ its histories go through T)
     rh, rlines = replay(res, wd, "MC_BrieRq.cfg" if q else "MC_BrieR.cfg", drv, max_walks=500 if q else 5000)
     if rh:
         validate(res, wd, "MCT_BrieReplay", rh, rlines, kf, allow_known=False)
+    phases["R replay"] = round(time.time() - t0, 1)
     # T
     rng = random.Random(seed() * 7919 + 27)
     fam = gen_jobs(tier, rng)
     for fname, lines in fam.items():
         if not lines:
             continue
+        t0 = time.time()
         hists, crash = run_driver(drv, lines, timeout=2400)
+        phases["T driver " + fname] = round(time.time() - t0, 1); t0 = time.time()
         res.count("histories_" + fname, len(hists))
         report_exec_problems(res, wd, hists, crash, lines, "Trie")
         for h in hists:
@@ -406,6 +412,7 @@ def run(tier, replay_path=None):
         neg = fname in ("negative", "stress_negative")
         # the coop negative family is single-threaded (the defect is sequential): inexplicable insert results are tolerated there
         validate(res, wd, "MCT_Brie_" + fname, hists, lines, kf, allow_known=neg, tolerant=(fname == "negative"))
+        phases["T tlc " + fname] = round(time.time() - t0, 1)
         if hists:
             h = hists[len(hists) // 2]
             res.sample({"family": fname, "job": lines[h["line"]], "schedule": h["label"],
